@@ -86,8 +86,7 @@ func (opts GeneratorOptions) setFields(
 		opts.genDuration(t, msg)
 		return true
 	case anyFullName:
-		opts.genAny(t, field, msg, depth)
-		return true
+		return opts.genAny(t, field, msg, depth)
 	case fieldMaskFullName:
 		opts.genFieldMask(t, msg)
 		return true
